@@ -27,6 +27,8 @@ func checkC06(p *Program, r *Report) {
 		return
 	}
 	va := buildEvalAnalysis(m)
+	r.Explain("R11 (= C07.R8) the comparison handler takes its left operand out of its interface before the right operand is evaluated: otherwise `a[0] == bump()` compares the slot's new content with the right operand, and 1 == 2 depends on where the 1 was read from.")
+	leftValueFixedBeforeRight(p, r, m, va, "C06.R11")
 	h := m.handlers["op"]["ComparisonOperator"]
 	if h == nil {
 		r.Undecided("C06.R1", "ComparisonOperator", "vm", "handler not found")
